@@ -660,8 +660,11 @@ pub fn gen_case(rng: &mut Rng, cfg: &GenCfg) -> (usize, u64, Vec<String>) {
         }
         if cfg.stepped && rng.chance(1, 12) {
             // a race: r pulls to the tip, another replica's version lands, r's push is rejected
-            let q = (r + 1 + rng.below(nreps as u64 - 1) as usize) % nreps;
-            if !stepping[q] {
+            // (among the replicas that take part already: the late joiner of --snapshots stays out until
+            // the server has discarded the old versions)
+            let pool = if joined { nreps } else { active };
+            let q = if pool > 1 { (r + 1 + rng.below(pool as u64 - 1) as usize) % pool } else { r };
+            if q != r && !stepping[q] {
                 let (s, n) = *rng.pick(&times);
                 lines.push(format!("C {} update {} {} {} {} {}", r, u, gen_str(rng, &keys), gen_str(rng, &vals), s, n));
                 lines.push(format!("C {} update {} {} {} {} {}", q, u, gen_str(rng, &keys), gen_str(rng, &vals), s, n));
